@@ -118,6 +118,44 @@ func registerCodecs() {
 		}
 		return Sc{e.freshBool(s, "ishexaddr")}
 	}))
+	hasPrefix := func(st Str, p string) *Term {
+		if st.Kind == 0 {
+			return Bool(strings.HasPrefix(st.Conc, p))
+		}
+		a, ln, _, ok := st.asBytes()
+		if !ok {
+			panic(engErr("strings prefix operation on an opaque string; the harness must provide a byte string"))
+		}
+		cs := []*Term{Ule(Idx(len(p)), ln)}
+		for i := 0; i < len(p); i++ {
+			cs = append(cs, Eq(Select(a, Idx(i)), BVu(uint64(p[i]), 8)))
+		}
+		return And(cs...)
+	}
+	add("strings.HasPrefix", simple(func(e *Engine, s *State, a []Value, at ssa.Instruction, sf *ssa.Function) Value {
+		p := a[1].(Str)
+		if p.Kind != 0 {
+			panic(engErr("strings.HasPrefix with symbolic prefix"))
+		}
+		return Sc{hasPrefix(a[0].(Str), p.Conc)}
+	}))
+	add("strings.TrimPrefix", simple(func(e *Engine, s *State, a []Value, at ssa.Instruction, sf *ssa.Function) Value {
+		st, p := a[0].(Str), a[1].(Str)
+		if p.Kind != 0 {
+			panic(engErr("strings.TrimPrefix with symbolic prefix"))
+		}
+		if st.Kind == 0 {
+			return concStr(strings.TrimPrefix(st.Conc, p.Conc))
+		}
+		hp := hasPrefix(st, p.Conc)
+		arr, ln, max, _ := st.asBytes()
+		k := len(p.Conc)
+		shifted := ZeroMem
+		for i := 0; i+k < max; i++ {
+			shifted = Store(shifted, Idx(i), Select(arr, Idx(i+k)))
+		}
+		return Str{Kind: 2, A: Ite(hp, shifted, arr), Len: Ite(hp, Sub(ln, Idx(k)), ln), Max: max}
+	}))
 	add("strings.Join", simple(func(e *Engine, s *State, a []Value, at ssa.Instruction, sf *ssa.Function) Value {
 		sl := a[0].(Sl)
 		sep := a[1].(Str)
